@@ -57,7 +57,8 @@ fn case_json(cfg: &NetCfg, params: &[P], x: &[f32]) -> J {
 fn single_layer(rng: &mut Rng, idx: u64, out: &mut Out) {
     let kinds = ["dense", "conv", "deconv", "pool", "conv", "deconv"];
     let kind = kinds[(idx % 6) as usize];
-    let act = ELEMENTWISE[((idx / 6) % 5) as usize];
+    // soft-max (over the whole layer output) is a legal activation of every layer kind
+    let act = ALL_ACTS[((idx / 6) % 6) as usize];
     let (l, input) = if kind == "dense" {
         let n = rng.range(1, 9);
         (
